@@ -64,10 +64,12 @@ func (m *Module) liftCell(fn *ssa.Function, cell *ssa.Alloc) {
 	elem := cell.Type().Underlying().(*types.Pointer).Elem()
 	// a variable that no function literal captures is not changed by deferred calls
 	captured := false
+	ncap := 0 // the function literals that share the variable
 	if refs := cell.Referrers(); refs != nil {
 		for _, r := range *refs {
 			if _, ok := r.(*ssa.MakeClosure); ok {
 				captured = true
+				ncap++
 			}
 		}
 	}
@@ -152,7 +154,7 @@ func (m *Module) liftCell(fn *ssa.Function, cell *ssa.Alloc) {
 				}
 			case ssa.CallInstruction:
 				kill := kills == nil || kills[ins]
-				if !kill && ins.Parent() != fn {
+				if !kill && ins.Parent() != fn && ncap > 1 {
 					// inside a function literal: a call through a function value could
 					// run another literal that shares the variable
 					if x.Common().IsInvoke() || x.Common().StaticCallee() == nil {
